@@ -61,6 +61,11 @@ Definition pp_ensure_init (t : tst) : tst :=
 
 Inductive tthread :=
 | TMain (th : thread)
+| TMainNR (th : thread)
+    (* a result-store call on a key whose shard directory <root>/x/y is on another file system (a mount
+       point, a symlink to another disk): rename(temp, final) fails with EXDEV.  commit has by then ended the
+       reservation and made space; it returns the error, the temp file is dropped, nothing is written at the
+       final path and nothing is indexed. *)
 | TPpPut (k : key) (chunks : list (list N))
 | TPpPutW (k : key) (h ino : N) (written : list N) (rest : list (list N))
 | TPpPutDone (r : pres)
@@ -87,6 +92,26 @@ Definition tstep (tid : nat) (t : tst) (th : tthread) : tst * tthread * list tev
       (* the result store's init walks the whole tree: temp files of nested-store puts in flight go too *)
       let ptm := if negb (inited (base t)) && inited b' then [] else pp_tmps t in
       ({| base := b'; pps := pps t; pp_inited := pp_inited t; pp_tmps := ptm |}, TMain m', map EMain ev)
+  | TMainNR m =>
+      match m with
+      | TPutW k h done [] false =>
+          let b := base t in
+          match hlookup h (handles (lru b)) with
+          | Some hd =>
+              let s0 := set_handles (lru b) (hremove h (handles (lru b))) (next_h (lru b)) in
+              let '(ok, s2) := make_space (release s0 hd) (h_written hd) in
+              ({| base := {| lru := s2; inited := inited b; capacity := capacity b; inodes := inodes b;
+                             dir := sync_dir (files s2) (dir b); tmps := hremove h (tmps b);
+                             next_ino := next_ino b |};
+                  pps := pps t; pp_inited := pp_inited t; pp_tmps := pp_tmps t |},
+               TMainNR (TPutDone (if ok then PErr else PTooLarge)), [])
+          | None => (t, TMainNR (TPutDone PErr), [])
+          end
+      | _ =>
+          let '(b', m', ev) := step_thread tid (base t) m in
+          let ptm := if negb (inited (base t)) && inited b' then [] else pp_tmps t in
+          ({| base := b'; pps := pps t; pp_inited := pp_inited t; pp_tmps := ptm |}, TMainNR m', map EMain ev)
+      end
   | TPpPut k chunks =>
       let t1 := pp_ensure_init t in
       let h := next_h (pps t1) in
@@ -218,4 +243,4 @@ Definition temp_count (t : tst) : nat :=
   length (tmps (base t)) + length (pp_tmps t) + length (filter (fun e => is_temp (fst e)) (disk_files t)).
 
 Definition is_tcall (th : tthread) : bool :=
-  match th with TMain m => is_call m | TPpPut _ _ | TPpGet _ => true | _ => false end.
+  match th with TMain m | TMainNR m => is_call m | TPpPut _ _ | TPpGet _ => true | _ => false end.
